@@ -237,6 +237,10 @@ def finish_setup(world, case):
     world.fsctl.short_reads = bool(fsspec.get("short_reads"))
     sspec = dict(case.get("server") or {})
     users = build_users(sspec.pop("users", None))
+    if sspec.get("user_manager") not in (None, "memory"):
+        from . import usermgr
+
+        users = usermgr.build(sspec["user_manager"], users, world.rng("usermgr"))
     kw = {k: sspec[k] for k in SERVER_KEYS if k in sspec}
     backend = {"memory": aioftp.MemoryPathIO, "pathio": aioftp.PathIO, "asyncpathio": aioftp.AsyncPathIO}[fsspec.get("backend", "memory")]
     server = world.make_server(users, backend=backend, **kw)
